@@ -2,7 +2,7 @@
 # usage: tools/full_matrix.sh [jobs] [tier]  -> seeded/MATRIX.txt : one block per seeded change (check of its own property)
 JOBS=${1:-4}
 TMP=$(mktemp -d /tmp/pyvc-fm-XXXXXX)
-ls -d seeded/C*-m* | xargs -P "$JOBS" -I{} sh -c '
+ls -d seeded/C*-m* | while read D; do grep -q '"retired"' $D/meta.json || echo $D; done | xargs -P "$JOBS" -I{} sh -c '
   D={}; N=$(basename $D); P=${N%%-*}
   OUT=$(tools/run_mutant.sh $D/patch.diff $P 2>&1)
   { echo "### $N"; echo "$OUT" | grep -E "^== |obligation .* refuted|^   [a-z-]+:|patch does not apply" | cut -c1-200 | head -5; } > '"$TMP"'/$N.txt'
